@@ -35,7 +35,7 @@ fn meta() -> Meta {
     Meta {
         id: "C18",
         level: "model_checking",
-        rule: "every word up to the depth bound over {W(5), W(80) (> buffer capacity 64), F, ExtRename, ExtRemove, Reopen, Reset(basename), Reset(directory), Reset(rotation toggled), R, ExtRename of the additional file writer's file}; every write also sends one record to the additional file writer X x {Direct, BufferDontFlush(64), BufferAndFlush(64)} x {no rotation, Numbers, TimestampsDirect}; external rename/remove applies to the file currently written to and is only issued when that file exists; states = distinct model states (number of physical files, their record counts) reached, non-trivial = word contains an external rename/remove followed by a reopen, or a reset, with writes before and after; every word with append on and off; ReopenFault = reopen_output while the first re-open it attempts fails by injection (the error is returned, the other writer is switched nevertheless; in the units with append, once the writers are active, the failure is real instead: the directory tree is moved away for the duration of the call, the error is returned and both writers keep the files they have open; in the units without append, when the current file was moved or removed before, a directory is put at its path for the duration of the call: the error is returned and the records logged afterwards are either in the file the writer had open or in the visible substitute file the re-open code leaves next to the path); ExtRenameCreate = rename the current file and create an empty file at its path (logrotate create); plus log_to_file_and_writer (a second FileLogWriter that gets every record): W W, both files renamed, reopen_output, W W",
+        rule: "every word up to the depth bound over {W(5), W(80) (> buffer capacity 64), F, ExtRename, ExtRemove, Reopen, Reset(basename), Reset(directory), Reset(rotation toggled), R, ExtRename of the additional file writer's file}; every write also sends one record to the additional file writer X x {Direct, BufferDontFlush(64), BufferAndFlush(64)} x {no rotation, Numbers, TimestampsDirect}; external rename/remove applies to the file currently written to and is only issued when that file exists; states = distinct model states (number of physical files, their record counts) reached, non-trivial = word contains an external rename/remove followed by a reopen, or a reset, with writes before and after; every word with append on and off; ReopenFault = reopen_output while the first re-open it attempts fails by injection (the error is returned, the other writer is switched nevertheless; in the units with append, once the writers are active, the failure is real instead: the directory tree is moved away for the duration of the call, the error is returned and both writers keep the files they have open; in the units without append, when the current file was moved or removed before, a directory is put at its path for the duration of the call: the error is returned and the records logged afterwards are either in the file the writer had open or in the visible substitute file the re-open code leaves next to the path); ExtRenameCreate = rename the current file and create an empty file at its path (logrotate create); plus log_to_file_and_writer (a second FileLogWriter that gets every record): W W, both files renamed, reopen_output, W W; plus a symlinked log file path whose link is renamed before reopen_output",
         assumptions: vec![
             "size limit huge (rotation only when triggered), append on (a reset back to an earlier family continues it)".into(),
             "records the user destroyed with ExtRemove are exempt".into(),
